@@ -9,7 +9,7 @@ use serde_json::{json, Value};
 use std::collections::HashMap;
 use std::rc::Rc;
 
-pub const RULE: &str = "multiset-of-classes model; after every insert/delete: return value, len(), is_empty() and query(y) for the whole universe; every 16 operations and at the end a deletable-count probe on a clone (delete a representative of each class until false; successes must equal the model count). (a) exhaustive DFS over all insert/delete histories of bounded length for (bucketsize 2, n_buckets 2, l 2) under a fixed eviction-RNG seed per hasher; (b) random histories for bucketsize 2..8, n_buckets 2..32, l in {2,3,5,8,13,31,32,33,40,48,64}, occasionally buckets of 257..511 slots, with hostile RNGs and kick budgets. non-trivial = history with >= 1 eviction, failed insert, delete from second bucket or delete of an absent class; distinct = distinct (config, op sequence) hashes";
+pub const RULE: &str = "multiset-of-classes model; after every insert/delete: return value, len(), is_empty() and query(y) for the whole universe; every 16 operations and at the end a deletable-count probe on a clone (delete a representative of each class until false; successes must equal the model count). (a) exhaustive DFS over all insert/delete histories of bounded length for (bucketsize 2, n_buckets 2, l 2) under a fixed eviction-RNG seed per hasher; (b) random histories for bucketsize 2..8, n_buckets 2..32, l in {2,3,5,8,13,31,32,33,40,48,64}, occasionally buckets of 257..511 slots, with hostile RNGs and kick budgets; 20 % of the histories contain a clear(), 25 % continue on a clone. non-trivial = history with >= 1 eviction, failed insert, delete from second bucket or delete of an absent class; distinct = distinct (config, op sequence) hashes";
 pub const ASSUMPTIONS: &[&str] = &[
     "classes are defined by the filter under test (singleton filter reports the other element), with the collapse gate bounding over-approximation",
     "insert failures (Full) are legitimate whenever the filter holds >= bucketsize elements; their atomicity is C12's business",
@@ -424,7 +424,22 @@ fn random_item(ctx: &Ctx, i: usize, rep: &mut Report) {
         let mut hist: Vec<Op> = vec![];
         let mut nontrivial = false;
         let p_del = [0.1, 0.3, 0.5, 0.2][style as usize];
+        let clear_at = if r.chance(0.2) { Some(r.below(n_ops as u64) as usize) } else { None };
+        let clone_at = if r.chance(0.25) { Some(r.below(n_ops as u64) as usize) } else { None };
         for s in 0..n_ops {
+            if clear_at == Some(s) {
+                Flt::clear(&mut f);
+                m = Model::new(&cls, cfg.bucketsize);
+                if let Err((sig, what)) = observe(&f, &m, &mut queries) {
+                    rep.violation(format!("{}/after-clear", sig), format!("{}: after clear(): {}", label, what), json!({"config": c, "history_then_clear": hist.iter().map(op_json).collect::<Vec<_>>()}));
+                    pdatastructs::verif::set_kick_budget(None);
+                    return;
+                }
+                hist.clear();
+            }
+            if clone_at == Some(s) {
+                f = f.clone();
+            }
             let op = if r.chance(p_del) {
                 // delete: mostly stored classes, sometimes absent ones
                 if m.n > 0 && r.chance(0.8) {
